@@ -21,6 +21,7 @@ def jobs(tier, seed):
         for pn in PREFIX_NAMES:
             k += 1
             out.append({"kind": "extend", "version": v, "flavour": ["sync", "async"][k % 2], "mqtt": k % 5 == 0, "prefixes": [pn], "tier": tier})
+    out.append({"kind": "suite"})
     return out
 
 
@@ -39,6 +40,14 @@ def normal_forms(res, cfg, steps, out):
 
 
 def run(job):
+    if job.get("kind") == "suite":
+        from ..core import Result
+        from .c02 import run_suite_under_contracts
+
+        res = Result()
+        run_suite_under_contracts(res, which=("contract:rejected-line-effect",))
+        res.evals += 1
+        return res
     if job.get("kind") == "extend":
         return run_extend(job)
     return run_lock_job(ID, job, normal_forms, confirm_crash=True)
@@ -59,14 +68,16 @@ def finish(agg, tier):
                 "Bounded-exhaustive part: 10 canonical prefix states (empty, node, children with values, id-assigned, OTA "
                 "requested/offered/fetching, sleeping, sleeping with withheld replies and desired values, sleeping with OTA) x command "
                 "-1..5 x sub-type -1..max+2 x the payload corpus of the rule (plus malformed hex for stream requests) x known/unknown "
-                "node and child, one extension line each. "
+                "node and child, one extension line each. The repository's own 730 tests are run once more with a contract on the real "
+                "Gateway.logic (a line the library rejects returns None and leaves the network state untouched). "
                 "distinct = (version, flavour, transport, model event kind, abstract state class before, command, sub-type); "
                 "non-trivial when the prior state is non-empty or the line is rejected.",
         "floors": [("rejected_lines", c.get("rejected_lines", 0), 5000), ("accepted_lines", c.get("accepted_lines", 0), 20000),
                    ("controller_set_calls", c.get("controller_set_calls", 0), 1000),
                    ("controller_values_with_semicolon", c.get("controller_values_with_semicolon", 0), 20),
                    ("controller_fw_calls", c.get("controller_fw_calls", 0), 300),
-                   ("extension_lines", c.get("extension_lines", 0), 60000)],
+                   ("extension_lines", c.get("extension_lines", 0), 60000),
+                   ("contract_evaluations:Gateway.logic:rejected", c.get("contract_evaluations:Gateway.logic:rejected", 0), 20)],
         "assumptions": ["sync pump emulation = the body of SyncTasks._poll_queue (reply = run_job(); transport.send(reply)); a crash "
                         "seen there is reported only if the real threaded pump also dies on the shrunk history",
                         "'rejected' is the library's own decode/validate verdict; C03 pins that verdict to the serial API"],
